@@ -97,6 +97,12 @@ check("C20", "exploration",
       "model-based property testing (rapid): reference model of firing instants vs the real scheduler in virtual time",
       "DESIGN.md §4 C20")
 
+check("C10", "exploration",
+      "Seeded random scripts of the documented-concurrent API run from 4-32 real goroutines against a real system built with the race detector, while actors spawn, fail (every decision) and terminate; verdicts: worker death, any race report (signature = pair of vivid functions), foreign replies, and white-box tree consistency at quiescence.",
+      "Schedules are the Go runtime's (sampled, 16 cores); the race detector is dynamic. Absence of a report is not absence of a race.",
+      "randomised concurrent API stress under -race with crash / race / tree-consistency oracles",
+      "DESIGN.md §4 C10")
+
 NOT_YET = {}
 
 def main():
